@@ -25,7 +25,10 @@ EXPLANATION = (
     'R-C05.6 a signature class that defines __hash__ hashes only state its '
     '__eq__ compares exactly (no repr of loosely compared dicts, no '
     'identity), because model signatures compare their index/constraint '
-    'signatures through set().')
+    'signatures through set(); R-C05.7 a simulate() that rewrites '
+    'unique_together / index_together (which diff compares as ordered '
+    'lists) keeps the order of the entries it keeps (no set / sorted on the '
+    'way).')
 NOT_DECIDED = (
     'Closure of diff -> hint -> simulate for all signature pairs (needs '
     'execution of the three functions on generated pairs).')
@@ -711,7 +714,86 @@ def r6_hash_agrees_with_eq(ctx):
     ctx.floor('signature classes defining __eq__ and __hash__', n_classes, 2)
 
 
+ORDER_DESTROYING = ('sorted', 'set', 'frozenset', 'reversed')
+
+
+def r7_order_preserving_rewrites(ctx):
+    """ModelSignature.diff compares unique_together / index_together as
+    ordered lists.  A simulate() that rewrites one of them (DeleteField drops
+    the deleted field from every entry) must keep the order of the entries it
+    keeps; building the new value through a set or sorted() re-orders an
+    attribute the mutation was not asked to change, and the hinted evolution
+    no longer resolves to the target signature."""
+    ctx.rule('R-C05.7')
+    p = ctx.program
+    ms = p.cls(SIG, 'ModelSignature')
+    modes = _attr_modes(ms.methods['diff'], ms)
+    ordered = sorted(a for a in ('unique_together', 'index_together')
+                     if 'raw' in modes.get(a, set()) and
+                     not (modes.get(a, set()) & {'set', 'sorted'}))
+    ctx.floor('*_together attributes that diff compares as ordered lists',
+              len(ordered), 1)
+    from ..flow import ReachingDefs
+    from ..util import unit
+    n_writes = 0
+    for m in p.modules.values():
+        if '.mutations.' not in m.name:
+            continue
+        for c in m.classes.values():
+            sim = c.methods.get('simulate')
+            if sim is None:
+                continue
+            for fn in unit(ctx, sim):
+                g = ctx.cfg(fn)
+                rd = None
+                for node in g.nodes:
+                    a = node.ast
+                    if not (node.kind == 'stmt' and isinstance(a, ast.Assign)):
+                        continue
+                    for t in a.targets:
+                        if not (isinstance(t, ast.Attribute) and
+                                t.attr in ordered and
+                                not is_self_attr(t)):
+                            continue
+                        n_writes += 1
+                        rd = rd or ReachingDefs(g, fn.params)
+                        bad = None
+                        names = set()
+                        for on, oe in rd.origins(node, a.value):
+                            for x in ast.walk(oe):
+                                if isinstance(x, (ast.Set, ast.SetComp)):
+                                    bad = unparse(x)
+                                elif isinstance(x, ast.Call) and \
+                                        isinstance(x.func, ast.Name) and \
+                                        x.func.id in ORDER_DESTROYING:
+                                    bad = unparse(x)
+                                elif isinstance(x, ast.Name):
+                                    names.add(x.id)
+                        for x in walk_no_nested(fn.node):
+                            if isinstance(x, ast.Call) and \
+                                    isinstance(x.func, ast.Attribute) and \
+                                    x.func.attr in ('sort', 'reverse') and \
+                                    isinstance(x.func.value, ast.Name) and \
+                                    x.func.value.id in names:
+                                bad = unparse(x)
+                        if bad:
+                            ctx.finding(fn, a, '%s rewrites %s through %s: '
+                                        'the entries it keeps are re-ordered, '
+                                        'but ModelSignature.diff compares %s '
+                                        'as an ordered list' % (
+                                            fn.qualname, t.attr,
+                                            ' '.join(bad.split())[:60],
+                                            t.attr),
+                                        key='reordered:%s' % t.attr)
+                        else:
+                            ctx.ok(fn, '%s is rewritten order-preservingly' %
+                                   t.attr, a)
+    ctx.floor('simulate() writes of ordered *_together attributes', n_writes,
+              2)
+
+
 def run(ctx):
+    r7_order_preserving_rewrites(ctx)
     r6_hash_agrees_with_eq(ctx)
     r5_no_stale_loop_variable(ctx)
     r1_diff_keys_consumed(ctx)
